@@ -74,6 +74,7 @@ class LGen(kgen.Gen):
         late = r.chance(1, 4)
         self.mode(bu=(1 if late else 7))
         a, b, ring = self.fan_in_order(k, closed, order)
+        if r.chance(1, 6): self.self_adjacent_cell()
         if late:
             for ln in r.shuffle(["EnEBU 1", "EnFBU 1"]): self.do(ln)
         self.query(force=True)
@@ -100,6 +101,25 @@ class LGen(kgen.Gen):
             else: self.delete_some("EV" if r.chance(1, 3) else "FC")
             self.query()
         self.query(force=True)
+
+    # ------------------------------------------------------------ a cell containing both halffaces of a face
+    def self_adjacent_cell(self):
+        """a solid torus made of ONE prism whose top and bottom triangle are the same face (the vertical edges are
+        loops): the cell contains the triangle and its opposite, and is closed (every halfedge of its halffaces is
+        matched exactly once by its opposite in another halfface that is not the opposite halfface)"""
+        base = self.st().nv
+        self.add_vertices(3)
+        a, b, c = base, base + 1, base + 2
+        e = [self.do("@AddE %d %d 0" % (x, y)).result() for x, y in ((a, b), (b, c), (c, a))]
+        l = [self.do("@AddE %d %d 1" % (x, x)).result() for x in (a, b, c)]
+        if not all(isinstance(x, int) for x in e + l): return None
+        f = [self.do("@AddF 1 %d %d %d" % (2 * e[0], 2 * e[1], 2 * e[2])).result()]
+        for i in range(3):
+            j = (i + 1) % 3
+            f.append(self.do("@AddF 1 %d %d %d %d" % (2 * e[i], 2 * l[j], 2 * e[i] + 1, 2 * l[i] + 1)).result())
+        if not all(isinstance(x, int) for x in f): return None
+        hfs = [2 * f[0], 2 * f[0] + 1, 2 * f[1], 2 * f[2], 2 * f[3]]
+        return self.do("@AddC 0 " + " ".join(map(str, self.r.shuffle(hfs)))).result()
 
     # ------------------------------------------------------------ degenerate meshes
     def run_degen(self, nops):
@@ -132,6 +152,7 @@ class LGen(kgen.Gen):
             f = r.pick(s.live_f())
             if s.F[f]: self.do("@AddF 0 " + " ".join(map(str, s.F[f] + [s.F[f][0]])))
         self.debris()
+        if r.chance(1, 2): self.self_adjacent_cell()
         self.query(force=True)
         # a cell nearby, then deferred deletions that leave definitions behind
         base = self.st().nv
@@ -171,7 +192,7 @@ def fan_cases(rng, quick):
             if closed and k < 2: continue
             for order in itertools.permutations(range(k)):
                 cases.append((k, closed, list(order)))
-    for k, cnt in ((4, 8 if quick else 24), (5, 4 if quick else 120), (6, 0 if quick else 40)):
+    for k, cnt in ((4, 24), (5, 10 if quick else 120), (6, 2 if quick else 40)):
         perms = list(itertools.permutations(range(k)))
         for closed in (True, False):
             sel = perms if cnt >= len(perms) else [perms[rng.below(len(perms))] for _ in range(cnt)]
